@@ -13,9 +13,9 @@ def run(R, tier, seed):
                       "is_excluded is decided from MIR for relative paths made of '/'-separated plain names (no '.'/'..' components, no leading '/'): "
                       "Path::components is modelled only on that domain; parse_remote_meta_output is NOT covered (DESIGN §4 C19)"]
     from . import planjobs
-    steps = ["validate-glob", "needs_transfer", "glob_match", "build_plan", "is_excluded"]
+    steps = ["validate-glob", "needs_transfer", "glob_match", "build_plan", "is_excluded", "is_excluded-2"]
     if tier != "quick":
-        steps += ["is_excluded-2", "is_excluded-long"]
+        steps += ["is_excluded-long"]
     planjobs.run(R, "C19", tier, seed, steps)
 
 
